@@ -1,6 +1,6 @@
 (* C04 model driver: evaluates the extracted ABFModel at floats on case lines from stdin.
    Case:  ABF nd lower*nd width*nd nx*nd periodic*nd full min update cap maxf*nd szd same sub*nd hidej other*nd scaled sfac*(prod nx)
-              hasdata [cnt0*(prod nx) grad0*(prod nx * nd)] nsteps (x*nd e*nd o*nd j*nd boundary apply)*nsteps
+              ndata (cnt0*(prod nx) grad0*(prod nx * nd))*ndata nsteps (x*nd e*nd o*nd j*nd boundary apply)*nsteps
    Output (one line): per step "bin .. fbin .. cf .. tf .. af .. cnt .. sum .. go .." joined by " ; ",
    then " ; SPEC cnt .. sum .." = the per-bin count and minus the summed forces of the attributed samples
    computed by the specification function [attributed] on the trace. *)
@@ -54,17 +54,19 @@ let () =
                      c_update = update; c_cap = cap; c_maxf = maxf; c_szd = szd; c_same_step = same;
                      c_subtract = sub; c_hidej = hidej; c_other = other; c_scaled = scaled; c_sfac = sfac } in
            (* data read through inputPrefix *)
-           let hasdata = nb () in
-           let cnt0arr = if hasdata then Array.init nt (fun _ -> ni ()) else [||] in
-           let grad0arr = if hasdata then Array.init (nt * nd) (fun _ -> nf ()) else [||] in
+           let ndata = ni () in
            let addr_of (ix : z list) : int =
              let rec addr a ixs nxs = match ixs, nxs with
                | i :: ir, n :: nr -> let i = int_of_z i in if i < 0 || i >= n then (-1) else (if a < 0 then a else addr (a * n + i) ir nr)
                | _, _ -> a in
              addr 0 ix nx in
-           let cnt0 ix = let a = addr_of ix in if a >= 0 && a < nt then z_of_int cnt0arr.(a) else z_of_int 0 in
-           let grad0 ix = let a = addr_of ix in
-             List.init nd (fun k -> if a >= 0 && a < nt then grad0arr.(a * nd + k) else 0.0) in
+           let datasets = List.init ndata (fun _ ->
+               let cnt0arr = Array.init nt (fun _ -> ni ()) in
+               let grad0arr = Array.init (nt * nd) (fun _ -> nf ()) in
+               let cnt0 ix = let a = addr_of ix in if a >= 0 && a < nt then z_of_int cnt0arr.(a) else z_of_int 0 in
+               let grad0 ix = let a = addr_of ix in
+                 List.init nd (fun k -> if a >= 0 && a < nt then grad0arr.(a * nd + k) else 0.0) in
+               (cnt0, grad0)) in
            let nsteps = ni () in
            let steps = List.init nsteps (fun _ ->
                let x = nflist nd in let e = nflist nd in let o = nflist nd in let j = nflist nd in let b = nb () in
@@ -84,7 +86,7 @@ let () =
                (String.concat " " (List.map (fun ix ->
                     fs (List.init nd (fun k -> grad_out fops cnt sum (List.map z_of_int ix) (nat_of_int k)))) ixs)) in
            let buf = Buffer.create 4096 in
-           let s0 = if hasdata then abf_init_data fops c cnt0 grad0 else abf_init fops c in
+           let s0 = abf_init_data fops c datasets in
            let s = ref s0 in
            let outs = ref [] in
            List.iter (fun i ->
